@@ -265,7 +265,8 @@ Inductive case :=
 | CSess (c : cfgspec) (steps : list sstepobs)
 | CWindow (n : nat) (delivered : list Z)
 | CCluster (c : cfgspec) (steps : list cstep)
-| CHandover (first second : nat) (batch1 batch2 : list Z).  (* a window is flushed, `second` frames arrive before its callback reads: what the two callbacks saw *)   (* n frames numbered 0..n-1 into one debounce window: the numbers flush delivers *)
+| CHandover (first second : nat) (batch1 batch2 : list Z)
+| CRefreshTrace (tr : list rdlabel).   (* requests, refresh starts and ends of a real refreshDebouncer, observed until quiescence *)  (* a window is flushed, `second` frames arrive before its callback reads: what the two callbacks saw *)   (* n frames numbered 0..n-1 into one debounce window: the numbers flush delivers *)
 
 Definition check (c : case) : bool :=
   match c with
@@ -276,6 +277,12 @@ Definition check (c : case) : bool :=
   | CSess cs steps => check_sess (cfg_of cs) empty_sess steps
   | CWindow n delivered => zlist_eqb delivered (firstn window_cap (map Z.of_nat (seq 0 n)))
   | CCluster cs steps => check_cluster (cfg_of cs) empty_sess steps
+  | CRefreshTrace tr =>
+      (* the trace is one the debouncer can make, and nothing is left to do: no armed timer with the flusher idle *)
+      match rd_run rd_init tr with
+      | Some s => negb (rd_armed s && negb (rd_running s)) && negb (rd_running s)
+      | None => false
+      end
   | CHandover first second b1 b2 =>
       zlist_eqb b1 (firstn window_cap (map Z.of_nat (seq 0 first)))
       && zlist_eqb b2 (firstn window_cap (map (fun i => 1000000 + Z.of_nat i) (seq 0 second)))
